@@ -181,6 +181,9 @@ func (s LockSet) clone() LockSet {
 func (s LockSet) String() string {
 	var ks []string
 	for k, v := range s {
+		if strings.HasPrefix(k, "~defer:") {
+			continue
+		}
 		ks = append(ks, k+":"+string(v))
 	}
 	sort.Strings(ks)
@@ -276,6 +279,13 @@ func (la *LockAnalysis) analyse(f *ssa.Function) {
 		cur := in[b].clone()
 		for _, ins := range b.Instrs {
 			la.at[ins] = cur.clone()
+			if d, isDefer := ins.(*ssa.Defer); isDefer {
+				// a deferred unlock releases the lock at every exit after this point
+				if path, _, acq, ok := lockOp(d); ok && !acq && path != "" {
+					cur["~defer:"+path] = lockW
+				}
+				continue
+			}
 			c, isCall := ins.(*ssa.Call)
 			if !isCall {
 				continue
@@ -342,6 +352,13 @@ func (la *LockAnalysis) analyse(f *ssa.Function) {
 		o, ok := out[b]
 		if !ok {
 			continue // unreachable
+		}
+		o = o.clone()
+		for k := range o {
+			if strings.HasPrefix(k, "~defer:") {
+				delete(o, strings.TrimPrefix(k, "~defer:"))
+				delete(o, k)
+			}
 		}
 		if first {
 			exit, first = o.clone(), false
